@@ -162,6 +162,16 @@ def py_oracle(tr, T=None, P=None, J=None):
             if k == "release" and l[3] and not hits.get(l[1]):
                 bad.append(("engine:reply_without_delivery", "call %d returned a reply although none was delivered" % l[1]))
     if T is not None:
+        started = {}
+        for l in tr.log:
+            if l[0] in ("send", "hit"):
+                started[l[1]] = l[2]
+            elif l[0] in ("timeout", "miss") and l[1] in started:
+                late = l[2] - started[l[1]] - T
+                if (l[0] == "timeout" and late > J + EPS) or (l[0] == "miss" and late > EPS):
+                    bad.append(("engine:attempt_outlives_timeout", "call %d (%s): an attempt was still waiting %.3f s after it was sent (timeout %.1f s)" % (
+                        l[1], tr.calls[l[1]]["caller"], (l[2] - started[l[1]]) / 1e6, T / 1e6)))
+                    break
         acq = {}
         for l in tr.log:
             if l[0] == "acquire":
